@@ -161,6 +161,14 @@ class CaseEval:
             if v.kind == "none":
                 return AV("fresh", None, "array(None)")
             return fresh(e)
+        if isinstance(e, ast.Call) and isinstance(e.func, ast.Attribute) and e.func.attr in ("copy", "astype", "view", "ravel", "flatten", "reshape") and not isinstance(e.func.value, ast.Name):
+            v = self.ev(e.func.value)
+            if v.kind in ("arrayN", "array1"):
+                return v  # a copy / view / reshaping of the caller's data is still the caller's data (value-wise)
+        if isinstance(e, ast.Call) and isinstance(e.func, ast.Attribute) and e.func.attr in ("copy", "astype") and isinstance(e.func.value, ast.Name):
+            v = self.ev(e.func.value)
+            if v.kind in ("arrayN", "array1"):
+                return v
         if isinstance(e, ast.Call) and isinstance(e.func, ast.Name):
             if e.func.id == "isinstance" and len(e.args) == 2:
                 v = self.ev(e.args[0])
